@@ -77,4 +77,53 @@ def canonB (xs : Intervals) : Bool := decide (Canon xs)
 
 def I64 (x : Int) : Prop := MinI64 ≤ x ∧ x ≤ MaxI64
 
+/-- `Interval.InBounds`. -/
+def Interval.inBounds (tr : Interval) (t : Int) : Bool := decide (t ≥ tr.mint) && decide (t ≤ tr.maxt)
+
+/-- `Interval.IsSubrange`: some single interval of `dranges` contains both endpoints. -/
+def Interval.isSubrange (tr : Interval) (dranges : Intervals) : Bool :=
+  dranges.any fun r => r.inBounds tr.mint && r.inBounds tr.maxt
+
+/-- Decidable form of "every timestamp of `[a,b]` is covered by `xs`" (no canonicity needed): it is
+    enough to test `a` and the successor of every right endpoint. -/
+def rangeCoveredB (xs : Intervals) (a b : Int) : Bool :=
+  (a :: xs.map (fun x => x.maxt + 1)).all fun t => !(decide (a ≤ t) && decide (t ≤ b)) || coversB xs t
+
+/-! ### `tsdb.DeletedIterator` (querier.go) over an underlying iterator that yields the timestamps
+    `ts` in order. `it.Intervals` is consumed from the front exactly as the Go loops do. -/
+
+/-- Inner loop of `DeletedIterator.Next` for the sample at `t`: (deleted?, remaining `it.Intervals`). -/
+def skipTo (t : Int) : Intervals → Bool × Intervals
+  | [] => (false, [])
+  | tr :: rest =>
+    if tr.inBounds t then (true, tr :: rest)          -- continue Outer
+    else if t ≤ tr.maxt then (false, tr :: rest)      -- return valueType
+    else skipTo t rest                                -- it.Intervals = it.Intervals[1:]
+
+/-- Successive results of `Next()` until `ValNone`. -/
+def drain : List Int → Intervals → List Int
+  | [], _ => []
+  | t :: r, ivs =>
+    match skipTo t ivs with
+    | (true, ivs') => drain r ivs'
+    | (false, ivs') => t :: drain r ivs'
+
+/-- Loop of `DeletedIterator.Seek` after the underlying `Seek` stopped at `t`. -/
+def seekSkip (t : Int) : Intervals → Bool × Intervals
+  | [] => (false, [])
+  | itv :: rest =>
+    if t < itv.mint then (false, itv :: rest)         -- return valueType
+    else if t > itv.maxt then seekSkip t rest         -- it.Intervals = it.Intervals[1:]; continue
+    else (true, itv :: rest)                          -- return it.Next()
+
+/-- `Seek(s)` on a fresh iterator, then `Next()` until `ValNone`. The underlying (XOR chunk) `Seek`
+    reads samples until the current timestamp is `≥ s`. -/
+def seekDrain (s : Int) (ts : List Int) (ivs : Intervals) : List Int :=
+  match ts.dropWhile (fun t => decide (t < s)) with
+  | [] => []
+  | t :: r =>
+    match seekSkip t ivs with
+    | (true, ivs') => drain r ivs'
+    | (false, ivs') => t :: drain r ivs'
+
 end Prom.Intervals
